@@ -52,7 +52,7 @@ template <class Ad> void run_set_program(const Program& P, Ad& ad, std::function
 // threads that are (wrongly) inside the same bucket at the same time, the user-supplied element operations (copy, compare,
 // hash) are scheduling points when g_cs_points is set (set_lock driver).
 extern bool g_cs_points;
-inline void cs_point() { static char dummy; if (g_cs_points) vs::sched_point(&dummy, vs::K_LOAD, 0); }
+inline void cs_point() { static char dummy; if (g_cs_points) vs::sched_point(&dummy, vs::K_USERPT, 0); }
 // value type of the value-based sets: (key, id); destructor poisons so that reads of destroyed elements are detected
 struct Item {
   int key; int id;
